@@ -341,6 +341,31 @@ Definition print_labels (blank : string) (ls : list (string * list qel)) : strin
   String "{" (print_pairs blank ls ++ String "}" EmptyString).
 Definition labels_written (ls : list (string * list qel)) : labels := map (fun l => (fst l, quoted_value (snd l))) ls.
 
+(* label names beyond ASCII: the whole of s is identifier material for scanIdentifier -- ASCII letters, digits (not first) and the
+   underscore, and well-formed multi-byte runes the letter / digit oracles accept (unicode.IsLetter; unicode.IsDigit not first) *)
+Fixpoint name_scan (uletter udigit : string -> bool) (skip : nat) (first : bool) (s : string) : bool :=
+  match s with
+  | EmptyString => Nat.eqb skip 0
+  | String a r =>
+    match skip with
+    | S k => name_scan uletter udigit k false r
+    | O =>
+      let b := byte a in
+      if b <? 128 then (is_alpha_ b || (negb first && is_digit b)) && name_scan uletter udigit 0 false r
+      else match rune_width b r with
+           | S (S k) =>
+             let t := substring 0 (S k) r in
+             Nat.eqb (rune_width b t) (S (S k)) && (uletter (String a t) || (negb first && udigit (String a t))) &&
+             name_scan uletter udigit (S k) false r
+           | _ => false
+           end
+    end
+  end.
+Definition uname_ok (uletter udigit : string -> bool) (s : string) : bool :=
+  match s with EmptyString => false | _ => name_scan uletter udigit 0 true s end.
+Definition upair_ok (uletter udigit : string -> bool) (l : string * list qel) : bool :=
+  uname_ok uletter udigit (fst l) && forallb qel_ok (snd l).
+
 (* ---------------------------------------------------------------- the Loki protobuf push with its labels as text *)
 (* logsProtobuf.go Decode: every stream carries its label set as a text in this syntax, parsed into an empty buffer;
    a text that is not accepted fails the request (None; chunks flushed earlier may have been sent already) *)
